@@ -1023,6 +1023,67 @@ def run_patterns(ctx):
     return stats, bad
 
 
+# write forms (the statement forms of C01) on string / bytes / vector / list / dict / nested targets, with the right-hand side
+# from the fault pool - including one-character non-ASCII strings of 2, 3 and 4 bytes
+WRITE_TARGETS = [   # (initial value, path prefix between the variable and the index under test)
+    ('"abc"', ""), ('"a\u00e9b"', ""), ('"\u4e2d\u6587"', ""), ('""', ""), ("B[1,2,3]", ""), ("B[]", ""), ("V(1,2,3)", ""), ("V()", ""), ("[1,2,3]", ""),
+    ('[[1,2],"ab"]', "[1]"), ('{1:"ab"}', "[1]"), ('[B[1,2],V(3,4)]', "[0]"), ('[B[1,2],V(3,4)]', "[1]"), ('C14S("ab",B[7])', "[c14a]"), ("(1 to 3)", ""), ("5", ""), ("null", ""),
+]
+WRITE_INDICES = ["0", "1", "(0-1)", "3", "(0-4)", "null", "9223372036854775807", "(0-9223372036854775807-1)", '"a"']
+WRITE_RHS = ['"z"', '"\u00e9"', '"\u2192"', '"\U0001d11e"', '"\\u{0}"', '"\\u{7f}"', '"\\u{80}"', '""', '"zz"', '"\u00e9\u00e9"', '"a\u0301"', "0", "255", "256", "(0-1)", "1.5", "(0.0/0.0)",
+             "(1/2)", "18446744073709551616", "null", "[1]", "B[1]", "V(1)", "(\\x -> x)", "(1+2i)"]
+WRITE_FORMS = [    # T = the target path up to the index, I = index, V = right-hand side
+    "T[I] = V", "T[I] += V", "T[I] ++= V", "T[I] max= V", "T[I:] = V", "T[:I] = V", "every T[I:] = V", "every T[:] = V", "every T = V",
+    "t |..= [I, V]", "t = t |.. [I, V]", "T[I], x1 = V, 1", "x1, T[I] = [1, V]", "swap T[I], x1", "T[I] = T[I] $ V", "T[I] .= (\\c -> V)", "T[I][0] = V",
+]
+
+
+def run_writes(ctx):
+    pre = ["struct C14S (c14a, c14b)", "x0 := 5", "x1 := (0-3)", f"x{MARK} := 0"]
+    post = ["x0", f"x{MARK}", "t"]
+    combos = [(tg, ix, rhs, form) for tg in WRITE_TARGETS for ix in WRITE_INDICES for rhs in WRITE_RHS for form in WRITE_FORMS]
+    if ctx.quick():
+        # every (target, rhs, form) with the in-range index, every (target, index, form) with two right-hand sides, and a sample of the rest
+        keep = [c for c in combos if c[1] in ("0", "1") or c[2] in ('"z"', '"\u00e9"')]
+        rest = [c for c in combos if not (c[1] in ("0", "1") or c[2] in ('"z"', '"\u00e9"'))]
+        combos = keep + ctx.rng.sample(rest, min(len(rest), 4000))
+    progs = []
+    for (init, prefix), ix, rhs, form in combos:
+        src = form.replace("T", "t" + prefix).replace("I", ix).replace("V", rhs)
+        progs.append((init, src))
+    res = common.run_prog([pre + [f"t := {init}", f"try ({src}) catch x8 -> (x1 = 42)", f"x{MARK} = 77"] + post for init, src in progs], timeout=20.0, fuel=50_000)
+    stats = {"programs": len(progs), "targets": len(WRITE_TARGETS), "indices": len(WRITE_INDICES), "rhs": len(WRITE_RHS), "forms": len(WRITE_FORMS),
+             "syntax": 0, "statements": 0}
+    bad = []
+    np = len(pre) + 1
+    for (init, src), r in zip(progs, res):
+        rr = r.get("results") or [r]
+        stats["statements"] += len(rr)
+        rec = dict(shape="write", program=f"t := {init}; try ({src}) catch x8 -> (x1 = 42); x{MARK} = 77; t", impl=[(x.get("status"), x.get("val") or x.get("msg")) for x in rr[np:]])
+        if r.get("status") in ("hang", "abort") or any(x.get("status") in ("panic", "hang", "abort") for x in rr) or len(rr) < np + 2 + len(post):
+            rec["what"] = "the implementation panicked / hung / aborted on a write form inside try/catch"
+            bad.append(("property", rec))
+            continue
+        st = rr[np].get("status")
+        if st == "parse":
+            stats["syntax"] += 1
+            continue
+        x0, mk = rr[np + 2].get("val"), rr[np + 3].get("val")
+        tv = rr[np + 4]
+        if st != "ok":
+            rec["what"] = "an error escaped try ... catch x8 -> ..."
+        elif mk != "I77":
+            rec["what"] = "the statement after the try did not run"
+        elif x0 != "I5":
+            rec["what"] = "a write form changed a variable it does not name (x0)"
+        elif tv.get("status") != "ok":
+            rec["what"] = "the target variable cannot be read after the (failed) write"
+        else:
+            continue
+        bad.append(("property", rec))
+    return stats, bad
+
+
 def canon_strings_to_E(s):
     return re.sub(r'S"(?:[^"\\]|\\.)*"', "E", s)
 
@@ -1318,6 +1379,9 @@ def run(ctx):
     S = run_sweep(ctx)
     amodel, abad = run_alloc_model(ctx, runner)
     report_inject(ctx, abad)
+    wstats, wbad = run_writes(ctx)
+    report_inject(ctx, wbad)
+    ctx.coverage["write_forms"] = wstats
     pstats, pbad = run_patterns(ctx)
     report_inject(ctx, pbad)
     ctx.coverage["patterns"] = pstats
@@ -1329,7 +1393,7 @@ def run(ctx):
     sweep_coverage(ctx, S)
     ctx.coverage["inject"] = stats
     ctx.coverage["inject_disagreements"] = len(bad)
-    ctx.coverage["evaluations"] = S["sw"].calls + stats["programs"] + stats["raw_fault_programs"] + sbstats["calls"] + pstats["programs"]
+    ctx.coverage["evaluations"] = S["sw"].calls + stats["programs"] + stats["raw_fault_programs"] + sbstats["calls"] + pstats["programs"] + wstats["programs"]
     ctx.coverage["distinct_nontrivial"] = ctx.coverage["sweep_not_argument_count_errors"] + stats["raised_to_top"] + stats["caught_and_continued"]
     ctx.coverage["rule"] = ("one evaluation = one application of a global function to an argument tuple (sweep) or one fault-injected program; "
                             "non-trivial = the call got past the argument-count check / the program raised to the top or had a fault caught and continued")
